@@ -870,7 +870,6 @@ package variants
 //
 //@ func (c *AbstractVariantOperations) Equal
 //@   requires c != nil && c.Overrides != nil && vinv(value1) && vinv(value2)
-//@   requires value1.typ == Object ==> !isslice(value1.value)   -- an Object payload of an uncomparable Go type is outside the contract
 //@   ensures[C06,C03] (result != nil) != (err != nil)
 //@   ensures[C06] err == nil ==> vinv(result)
 //@   assigns nothing
@@ -895,7 +894,6 @@ package variants
 //
 //@ func (c *AbstractVariantOperations) NotEqual
 //@   requires c != nil && c.Overrides != nil && vinv(value1) && vinv(value2)
-//@   requires value1.typ == Object ==> !isslice(value1.value)   -- an Object payload of an uncomparable Go type is outside the contract
 //@   ensures[C06,C03] (result != nil) != (err != nil)
 //@   ensures[C06] err == nil ==> vinv(result)
 //@   assigns nothing
@@ -1041,8 +1039,8 @@ package variants
 
 // ---------------------------------------------------------------------------------------------
 // What the calculator assumes of a variant operations manager (both managers are verified against it).
-// A supported operand: a valid variant; arrays are flat arrays of supported scalars; an Object payload is comparable.
-//@ pred valOK(v *Variant) = v != nil && vinv(v) && elemsOK(v) && (v.typ == Object ==> !isslice(v.value))
+// A supported operand: a valid variant; arrays are flat arrays of supported scalars.
+//@ pred valOK(v *Variant) = v != nil && vinv(v) && elemsOK(v)
 // GENERATED by /verif/tools/gen_calculator_contracts.py
 //@ interface IVariantOperations.Add(self, value1, value2)
 //@   requires self != nil
